@@ -52,6 +52,11 @@ def check_valence(graph, explicit_h=False, stats=None):
                 continue
             attrs = ["fragid", "fragname"] + ([] if explicit_h else ["weight"])
             for attr in attrs:
+                if attr == "fragid" and explicit_h and isinstance(data.get(attr), list) and \
+                        isinstance(graph.nodes[anchor].get(attr), list) and set(data[attr]) <= set(graph.nodes[anchor][attr]):
+                    continue    # a hydrogen written in one fragment on an atom shared by several
+                if attr == "fragname" and explicit_h and len(graph.nodes[anchor].get("fragid") or []) > 1:
+                    continue    # ... it keeps the name of the fragment it was written in
                 if data.get(attr) != graph.nodes[anchor].get(attr):
                     out.append("hydrogen %r has %s=%r but its atom %r has %r"
                                % (node, attr, data.get(attr), anchor, graph.nodes[anchor].get(attr)))
@@ -69,6 +74,13 @@ def check_valence(graph, explicit_h=False, stats=None):
                     out.append("bond %r-%r to hydrogen has order %r" % (node, nb, order))
             else:
                 heavy += float(order)
+        n_arom = sum(1 for nb in graph[node] if graph.edges[node, nb].get("order", 1) == 1.5)
+        if n_arom == 1:
+            out.append("atom %r (%s) has exactly one bond of order 1.5: aromatic bond orders are inconsistent (bond sum %g)" % (node, element, heavy))
+            continue
+        if data.get("aromatic") and element in ("N", "O", "S", "P"):
+            unjudged += 1        # pyrrole- vs pyridine-type heteroatoms need the kekule form; not judged here
+            continue
         want = expected_h(element, data.get("charge", 0), heavy)
         if want is None:
             unjudged += 1
